@@ -272,5 +272,6 @@ func init() {
 			run.Sample(map[string]any{"function": s.Func, "paths": r.Paths, "feasible": r.Feasible, "classes": r.ClassCount})
 		}
 		errRulesFor(run, p, "primitives/ed25519/extra/ecvrf")
+		arithmeticFoundations(c)
 	}
 }
